@@ -59,7 +59,7 @@ Section Fold.
     jobs st' = map gmap (pre ++ suf) /\ I st' /\
     batches st' = batches st /\ updates st' = updates st /\ groups st' = groups st /\ ancestors st' = ancestors st /\
     marks st' = marks st /\ parents st' = parents st /\ staging st' = staging st /\
-    attempts st' = attempts st /\ insts st' = insts st.
+    attempts st' = attempts st /\ insts st' = insts st /\ next_batch st' = next_batch st.
   Proof.
     induction suf as [|j suf IH]; intros pre st HI ND Hj; cbn [fold_left].
     - rewrite app_nil_r in *. repeat split; auto.
@@ -68,7 +68,8 @@ Section Fold.
       assert (Hstep : I (step_fn st j) /\ jobs (step_fn st j) = map gmap (pre ++ [j]) ++ suf /\
                       batches (step_fn st j) = batches st /\ updates (step_fn st j) = updates st /\ groups (step_fn st j) = groups st /\
                       ancestors (step_fn st j) = ancestors st /\ marks (step_fn st j) = marks st /\ parents (step_fn st j) = parents st /\
-                      staging (step_fn st j) = staging st /\ attempts (step_fn st j) = attempts st /\ insts (step_fn st j) = insts st).
+                      staging (step_fn st j) = staging st /\ attempts (step_fn st j) = attempts st /\ insts (step_fn st j) = insts st /\
+                      next_batch (step_fn st j) = next_batch st).
       { rewrite step_fn_spec by exact HI. rewrite map_app. cbn [map]. change (gmap j) with (if P j then F j else j).
         destruct (P j) eqn:Pj.
         - split; [apply I_update_job; exact HI|]. autorewrite with frame. split; [|repeat split; reflexivity].
@@ -82,9 +83,9 @@ Section Fold.
           + rewrite <- app_assoc. f_equal. cbn [app]. apply replace_job_head; [apply F_static | exact Hsuf].
           + rewrite map_jk_gmap. pose proof (F_static j) as (S1 & S2 & _). unfold jk at 1. rewrite <- S1, <- S2. exact Hpre.
         - split; [exact HI|]. split; [|repeat split; reflexivity]. rewrite Hj, <- app_assoc. reflexivity. }
-      destruct Hstep as (HI' & Hj' & F1 & F2 & F3 & F4 & F5 & F6 & F7 & F8 & F9).
+      destruct Hstep as (HI' & Hj' & F1 & F2 & F3 & F4 & F5 & F6 & F7 & F8 & F9 & F10).
       specialize (IH (pre ++ [j]) (step_fn st j) HI' ND Hj'). cbv zeta in IH.
-      destruct IH as (G0 & GI & G1 & G2 & G3 & G4 & G5 & G6 & G7 & G8 & G9).
+      destruct IH as (G0 & GI & G1 & G2 & G3 & G4 & G5 & G6 & G7 & G8 & G9 & G10).
       repeat split; try assumption; congruence.
   Qed.
 End Fold.
